@@ -8,6 +8,13 @@
 //!   hl.covx <hex> <set> | <set> …   CoverageTable::intersects per set; RangeRecord::{population, iter, intersects}
 //!   hl.cls  <hex> <gid…>            ClassDef::read + population + iter digest + record populations + get per gid
 //!   hl.dev  <hex>                   Device::read + iter | DeviceOrVariationIndex::read (+ DeltaSetIndex::from)
+//!   hl.slist / hl.script <hex> …    ScriptList::{index_for_tag, select}, Script::lang_sys_index_for_tag
+//!   hl.stags <tag…>                 ScriptTags::from_unicode
+//!   hl.lookup <hex>                 SubstitutionLookup::read + subtables() + Subtables::{len, iter, get}
+//!   hl.closure <hex> <set> | …      Gsub::read + closure_glyphs per glyph set (result digest / error)
+//!   hl.collect <hex> s | l | f      Gsub / Gpos::collect_features (tag sets: `<inverted> <tag…>`)
+//! Closures that reach more than 2500 glyphs are left to the oracles (the list-based model is quadratic;
+//! see /tmp/c01b-layout-defect-1.txt for the real code's own quadratic cost on such tables).
 use super::*;
 use font_types::{GlyphId, GlyphId16};
 use read_fonts::collections::IntSet;
@@ -82,6 +89,14 @@ fn drain_fnv<I: Iterator>(ctx: &mut Ctx, name: &str, cap: usize, what: &str, byt
 /// one correspondence case: `f` computes the implementation's response (inside `catch`)
 fn ask(ctx: &mut Ctx, req: String, bytes: &[u8], f: impl FnOnce(&mut Ctx) -> String) {
     PROGRESS.fetch_add(1, Ordering::Relaxed);
+    {
+        // what the watchdog reports when the call does not return
+        let mut cur = CURRENT.lock().unwrap();
+        cur.0.clear();
+        cur.0.push_str(req.split(' ').next().unwrap_or(""));
+        cur.1.clear();
+        cur.1.extend_from_slice(bytes);
+    }
     // `ctx` is only used for oracles / counters inside `f`; a panic leaves it consistent
     let r = catch(std::panic::AssertUnwindSafe(|| f(ctx)));
     match r {
@@ -1758,7 +1773,7 @@ fn closure_case(ctx: &mut Ctx, bytes: &[u8], sets: &[Vec<u16>]) {
 pub fn run(ctx: &mut Ctx) {
     let k = if ctx.thorough { 5 } else { 1 };
     // Coverage: get / iter / population
-    for round in 0..44 * k {
+    for round in 0..36 * k {
         let uni = *ctx.rng.pick(&[8u32, 40, 300, 0x1_0000]);
         let b = cov_any(&mut ctx.rng, uni, round % 3 == 0);
         for v in variants(&mut ctx.rng, &b, 6) {
@@ -1774,7 +1789,7 @@ pub fn run(ctx: &mut Ctx) {
         }
     }
     // ClassDef
-    for round in 0..44 * k {
+    for round in 0..36 * k {
         let uni = *ctx.rng.pick(&[8u32, 40, 300, 0xFFF0]);
         let b = class_any(&mut ctx.rng, uni, 3, round % 3 == 0);
         for v in variants(&mut ctx.rng, &b, 6) {
@@ -1849,11 +1864,11 @@ pub fn run(ctx: &mut Ctx) {
     }
     // lookups: plain and extension, every subtable type
     const TYPES: [(u16, u16); 17] = [(1, 0), (2, 0), (3, 0), (4, 0), (5, 0), (6, 0), (8, 0), (7, 1), (7, 2), (7, 4), (7, 5), (7, 6), (7, 8), (7, 7), (7, 0), (0, 0), (9, 0)];
-    for round in 0..17 * k {
+    for round in 0..34 * k {
         let lk = Lk { uni: 12, n_lookups: 3, n_classes: 2, den: 12, hostile: round % 2 == 0 };
         let (ty, ext_ty) = TYPES[round % 17];
         let b = closure_lookup_of(&mut ctx.rng, &lk, ty, ext_ty).flat();
-        for v in variants_opt(&mut ctx.rng, &b, 6, true, 2) {
+        for v in variants_opt(&mut ctx.rng, &b, 4, round % 34 < 17, 3) {
             lookup_case(ctx, &v);
         }
     }
